@@ -143,14 +143,19 @@ class QCircuit:
 
     def copy(self, vanilla=False) -> "QCircuit":
         """Create a copy of the quantum circuit; if vanilla is True, reset all mapping info"""
-        self.__native = None
         if vanilla:
             circ = QCircuit(self.num_qubits)
             circ.gates = copy.deepcopy(self.gates)
 
             return circ
 
-        return copy.deepcopy(self)
+        # The native object is not copied (the copy is drawn from its own gates),
+        # and the circuit being copied keeps it
+        native, self.__native = self.__native, None
+        try:
+            return copy.deepcopy(self)
+        finally:
+            self.__native = native
 
     def repeat(self, n: int) -> "QCircuit":
         """Return a copy of the QCircuit repeated n times"""
